@@ -302,9 +302,17 @@ def run_shard(ctx):
         # ---- the real visitor
         calls_real = []
 
+        busy = rng.random() < 0.3
+        if busy:
+            ctx.count("rules_that_traverse_and_serialize")
+
         def mk_rule(cname, action):
             def meth(self, node):
                 calls_real.append(id(node))
+                if busy:
+                    # a visit method may use the node freely: traverse, compare, serialize, look around
+                    list(node.dfs())
+                    _ = node == node, hash(node), node.as_dict(), node.to_tree().get_depth(node), node.find(f"//{P}Leaf")
                 if action == "keep":
                     return ASTTransformVisitor.generic_visit(self, node)
                 if action == "keep_nodescend":
